@@ -64,7 +64,9 @@ def trick_contracts(ctx, P) -> None:
                 return ["OSError"]
             return ()
 
-    cfg = K(P, follow_attrs=False, no_inline=set(A.methods) | {"join", "start"})
+    # the methods the contracts are stated for stay opaque to one another; any other private helper of the class is inlined
+    CONTRACT = {"start", "stop", "on_any_event", "_restart_process", "_start_process", "_stop_process"}
+    cfg = K(P, follow_attrs=False, no_inline=CONTRACT | {"join"})
     cfg.havoc_on_acquire = False
 
     def paths(m):
@@ -198,7 +200,7 @@ def trick_contracts(ctx, P) -> None:
                 for L in loops:
                     for b in L.extra["paths"]:
                         bc = b.conds()
-                        if b.outcome == ("break",) and bc.get("self.process.poll() is None") is not False:
+                        if (b.outcome == ("break",) or b.outcome[0] == "return") and bc.get("self.process.poll() is None") is not False:
                             ok, why = False, "the polling loop is left although the child was not found exited (no signal 9 follows)"
                         if b.outcome is NORMAL and bc.get("self.process.poll() is None") is not True:
                             ok, why = False, "the polling loop goes on although the child was found exited"
